@@ -194,13 +194,14 @@ fn flatten_array(forest: &[B], ops: &dyn Fn(u8) -> AOp, code: &mut Vec<AIns>, ch
 
 pub struct ArrayRun
 {
-	pub prints: Vec<i32>,
-	pub x: i32,
+	pub prints: Vec<i128>,
+	pub x: i128,
 	pub i: usize,
-	pub a: [i32; 3],
+	pub a: [i128; 3],
 }
 
-pub fn run_array(forest: &[B], ops: &dyn Fn(u8) -> AOp, a0: [i32; 3], budget: usize, max_prints: usize) -> Option<ArrayRun>
+/// `wrap` reduces a mathematical result to the element type (two's complement).
+pub fn run_array(forest: &[B], ops: &dyn Fn(u8) -> AOp, a0: [i128; 3], wrap: &dyn Fn(i128) -> i128, budget: usize, max_prints: usize) -> Option<ArrayRun>
 {
 	let mut code = Vec::new();
 	let mut nb = 0;
@@ -227,8 +228,8 @@ pub fn run_array(forest: &[B], ops: &dyn Fn(u8) -> AOp, a0: [i32; 3], budget: us
 				{
 					*r.a.get_mut(r.i)? = r.x;
 				}
-				AOp::AddElem => r.x = r.x.wrapping_add(*r.a.get(r.i)?),
-				AOp::Dbl => r.x = r.x.wrapping_mul(2),
+				AOp::AddElem => r.x = wrap(r.x.wrapping_add(*r.a.get(r.i)?)),
+				AOp::Dbl => r.x = wrap(r.x.wrapping_mul(2)),
 				AOp::IfAtEndGoto(l) =>
 				{
 					if r.i == 3
@@ -247,11 +248,11 @@ pub fn run_array(forest: &[B], ops: &dyn Fn(u8) -> AOp, a0: [i32; 3], budget: us
 					let e = *r.a.get(r.i)?;
 					if e > 15
 					{
-						r.x = r.x.wrapping_add(1);
+						r.x = wrap(r.x.wrapping_add(1));
 					}
 					else
 					{
-						r.a[r.i] = e.wrapping_add(r.x);
+						r.a[r.i] = wrap(e.wrapping_add(r.x));
 					}
 				}
 				AOp::Print => r.prints.push(r.x),
